@@ -517,7 +517,7 @@ def run_native(mods, harness, params, inputs):
     return env, err
 
 
-DEFAULT_LIMITS = {"max_paths": 4000, "max_decisions": 400, "max_loop": 64, "max_readinto": 40, "timeout_ms": 20000,
+DEFAULT_LIMITS = {"max_paths": 4000, "max_decisions": 400, "max_loop": 64, "max_readinto": 40, "timeout_ms": 60000,
                   "budget_s": 60.0}
 
 
